@@ -14,6 +14,7 @@
 //	mu.Lock()/Unlock()    -> simrt.Lock/Unlock(site, &mu)  (RLock/RUnlock alike)
 //	select { ... }        -> simrt.Yield(site, "select"); select { ... }
 //	time.Sleep(d)         -> simrt.Sleep(site, d)         time.Now() -> simrt.Now()
+//	os.Open/OpenFile/Create/Stat/ReadDir/MkdirAll -> simrt.OsOpen/... (file-system seam; -noos disables)
 //
 // Operations inside the communication clause of a select are left alone (the yield before the
 // select covers them). The site table is written to <dir>/SITES.txt.
@@ -94,9 +95,19 @@ func addrOf(info *types.Info, x ast.Expr) ast.Expr {
 	return &ast.UnaryExpr{Op: token.AND, X: x}
 }
 
+// rewriteOS: route the library's file-system calls through simrt (fault injection on files). The
+// check script retries with -noos when the rewritten tree does not build (a *os.File typed
+// declaration would not accept the wrapper), so that such a tree is still checked, without file
+// faults, instead of getting no verdict.
+var rewriteOS = true
+
 func main() {
+	if len(os.Args) == 4 && os.Args[1] == "-noos" {
+		rewriteOS = false
+		os.Args = append(os.Args[:1], os.Args[2:]...)
+	}
 	if len(os.Args) != 3 {
-		fail("usage: siminstr <dir> <simrt module dir>")
+		fail("usage: siminstr [-noos] <dir> <simrt module dir>")
 	}
 	var err error
 	root, err = filepath.Abs(os.Args[1])
@@ -249,6 +260,12 @@ func instrumentFile(p *packages.Package, f *ast.File) {
 			}
 			full := funcFullName(info, x)
 			switch full {
+			case "os.Open", "os.OpenFile", "os.Create", "os.Stat", "os.ReadDir", "os.MkdirAll":
+				if rewriteOS {
+					x.Fun = sel("Os" + strings.TrimPrefix(full, "os."))
+					kinds["os"]++
+					changed = true
+				}
 			case "time.Sleep":
 				x.Fun = sel("Sleep")
 				x.Args = append([]ast.Expr{site(fset, x.Pos(), "sleep")}, x.Args...)
@@ -289,7 +306,7 @@ func instrumentFile(p *packages.Package, f *ast.File) {
 		return
 	}
 	astutil.AddImport(fset, f, "simrt")
-	for _, imp := range []string{"time", "sync"} {
+	for _, imp := range []string{"time", "sync", "os"} {
 		if !astutil.UsesImport(f, imp) {
 			astutil.DeleteImport(fset, f, imp)
 		}
